@@ -80,18 +80,23 @@ fn enc_strict(inner: Arc<InMemory>) -> Arc<dyn ObjectStore> {
 
 /// Writes the scenario through a real `EncryptedStore` (chunk size 16):
 /// key `a` first gets an older generation, then its final content by
-/// `writer`; key `a/b` holds a different payload of the same size.
+/// `writer`; key `a/b` holds a different payload of the same size, key `d`
+/// one of a different size.
 pub async fn build_scenario(size: usize, writer: Writer) -> Scenario {
     anda_db_utils::verif::set_clock(Some((1_700_000_000_000, 1000)));
     let inner = Arc::new(InMemory::new());
     let store = enc(inner.clone());
     let (p_old, p1, p2) = (payload(size, 2), payload(size, 0), payload(size, 1));
+    // a fourth key of a DIFFERENT size, so that a document moved between
+    // keys would show as a wrong size in head / list
+    let p3 = payload(size + 3, 4);
     let (a, ab, c) = (Path::from("a"), Path::from("a/b"), Path::from("c"));
     store.put(&a, p_old.clone().into()).await.expect("put old generation");
     let s0 = snapshot(&inner);
     let old_gen_path = s0.keys().find(|k| k.starts_with("gen/a/")).expect("old generation").clone();
     let old_meta = s0.get("meta/a").expect("old meta").clone();
     store.put(&ab, p2.clone().into()).await.expect("put a/b");
+    store.put(&Path::from("d"), p3.clone().into()).await.expect("put d");
     match writer {
         Writer::Put => {
             store.put(&a, p1.clone().into()).await.expect("put");
@@ -122,7 +127,7 @@ pub async fn build_scenario(size: usize, writer: Writer) -> Scenario {
     assert!(!base.contains_key(&old_gen_path), "replaced generation should have been reclaimed");
     base.insert(old_gen_path.clone(), s0.get(&old_gen_path).unwrap().clone());
     let mut original = BTreeMap::new();
-    let mut keys = vec![("a", p1.clone()), ("a/b", p2.clone())];
+    let mut keys = vec![("a", p1.clone()), ("a/b", p2.clone()), ("d", p3.clone())];
     if writer == Writer::Copy {
         keys.push(("c", p1.clone()));
     }
@@ -150,7 +155,7 @@ pub async fn build_scenario(size: usize, writer: Writer) -> Scenario {
         old_gen_path,
         old_meta,
         old_plain: p_old.clone(),
-        plaintexts: vec![p_old, p1, p2],
+        plaintexts: vec![p_old, p1, p2, p3],
     }
 }
 
@@ -821,12 +826,12 @@ pub async fn do_read(sc: &Scenario, store: &dyn ObjectStore, rd: &Read, soft: &m
         }
         Read::List => match store.list(None).try_collect::<Vec<_>>().await {
             Err(_) => Verdict::Failed,
-            Ok(v) => check_entries(sc, &v, &["a", "a/b", "c"], soft),
+            Ok(v) => check_entries(sc, &v, &["a", "a/b", "c", "d"], soft),
         },
         Read::ListOff { off } => {
             match store.list_with_offset(None, &Path::from(off.as_str())).try_collect::<Vec<_>>().await {
                 Err(_) => Verdict::Failed,
-                Ok(v) => check_entries(sc, &v, &["a", "a/b", "c"], soft),
+                Ok(v) => check_entries(sc, &v, &["a", "a/b", "c", "d"], soft),
             }
         }
         Read::ListDelim { prefix } => {
@@ -834,7 +839,7 @@ pub async fn do_read(sc: &Scenario, store: &dyn ObjectStore, rd: &Read, soft: &m
             match store.list_with_delimiter(p.as_ref()).await {
                 Err(_) => Verdict::Failed,
                 Ok(r) => {
-                    let exp: &[&str] = if prefix.is_none() { &["a", "c"] } else { &["a/b"] };
+                    let exp: &[&str] = if prefix.is_none() { &["a", "c", "d"] } else { &["a/b"] };
                     check_entries(sc, &r.objects, exp, soft)
                 }
             }
@@ -906,6 +911,39 @@ pub fn chunk_nonce(base: &[u8], idx: u64) -> [u8; 12] {
     let c = u64::from_le_bytes(ctr).wrapping_add(idx);
     n[4..12].copy_from_slice(&c.to_le_bytes());
     n
+}
+
+/// The documented associated data of a chunk (docs/anda_object_store.md
+/// section 4.1, `"av": 1`): domain string, chunk size, chunk index.
+pub fn chunk_aad(chunk_size: u64, idx: u64) -> Vec<u8> {
+    let mut aad = b"anda_object_store.encrypted.chunk.v1".to_vec();
+    aad.extend_from_slice(&chunk_size.to_le_bytes());
+    aad.extend_from_slice(&idx.to_le_bytes());
+    aad
+}
+
+/// Decrypts one ciphertext chunk with the harness' own AES-256-GCM instance
+/// under the nonce re-derived from the metadata document. `None` = the tag
+/// does not verify, i.e. the chunk was NOT encrypted under that nonce / AAD.
+pub fn open_chunk(ct: &[u8], base_nonce: &[u8], cs: u64, idx: u64, tag: &[u8]) -> Option<Vec<u8>> {
+    use aes_gcm::aead::KeyInit;
+    use aes_gcm::{AeadInOut, Aes256Gcm, Key, Nonce, Tag};
+    if tag.len() != 16 || base_nonce.len() != 12 {
+        return None;
+    }
+    let cipher = Aes256Gcm::new(&Key::<Aes256Gcm>::from(SECRET));
+    let mut buf = ct.to_vec();
+    let mut t = [0u8; 16];
+    t.copy_from_slice(tag);
+    cipher
+        .decrypt_inout_detached(
+            &Nonce::from(chunk_nonce(base_nonce, idx)),
+            &chunk_aad(cs, idx),
+            buf.as_mut_slice().into(),
+            &Tag::from(t),
+        )
+        .ok()?;
+    Some(buf)
 }
 
 /// True when some window of `w` consecutive plaintext bytes occurs in `hay`.
